@@ -32,6 +32,7 @@ type target struct {
 	state           string            // when non-empty: the receiver is mutated; the definition returns (receiver, result)
 	optional        bool              // the Go result is a pointer: nil -> none, a value -> some
 	mayPanic        bool              // the body has an explicit panic: results are `some v`, the panic is `none`
+	critResult      bool              // the result is a query.Criteria built from literals: a GCrit
 }
 
 var targets = []target{
@@ -50,6 +51,7 @@ var targets = []target{
 	{dir: "query", recv: "BinaryCriteria", name: "Satisfy", lean: "BinaryCriteria_Satisfy", params: map[string]string{"c": "GBinary", "doc": ""}, ret: "Bool"},
 	{dir: "query", recv: "NotCriteria", name: "Satisfy", lean: "NotCriteria_Satisfy", params: map[string]string{"c": "GNot", "doc": ""}, ret: "Bool"},
 	{dir: "query", recv: "UnaryCriteria", name: "exist", lean: "UnaryCriteria_exist", params: map[string]string{"c": "GUnary", "doc": "Doc"}, ret: "Bool"},
+	{dir: ".", recv: "NotFlattenVisitor", name: "removeNotCriteria", lean: "removeNotCriteria", params: map[string]string{"v": "", "c": "GNotU"}, ret: "GCrit", critResult: true},
 	{dir: ".", recv: "skipLimitNode", name: "Callback", lean: "skipLimitNode_Callback", params: map[string]string{"nd": "GSkipLimit", "doc": ""}, ret: "Outcome", outcome: true, state: "nd"},
 }
 
@@ -61,6 +63,8 @@ var structs = map[string][][2]string{
 	// query.BinaryCriteria / NotCriteria: a sub-criterion is represented by what its Satisfy answers on the document at hand
 	"GBinary": {{"OpType", "String"}, {"C1", "Bool"}, {"C2", "Bool"}},
 	"GNot":    {{"C", "Bool"}},
+	// a NotCriteria whose inner criterion is a UnaryCriteria (what removeNotCriteria is called on)
+	"GNotU": {{"C", "GUnary"}},
 	// query.Query
 	"GQuery": {{"collection", "Bytes"}, {"criteria", "Option Crit"}, {"limit", "Int"}, {"skip", "Int"}, {"sortOpts", "List (Bytes × Int)"}},
 }
@@ -120,6 +124,8 @@ func (x *tr) typeOf(e ast.Expr) string {
 	case *ast.BasicLit:
 		return "Int"
 	case *ast.ParenExpr:
+		return x.typeOf(v.X)
+	case *ast.TypeAssertExpr:
 		return x.typeOf(v.X)
 	case *ast.CallExpr:
 		if sub, ok := subSatisfy(v); ok {
@@ -267,6 +273,9 @@ func (x *tr) expr(e ast.Expr) string {
 			return "(" + fn + " " + strings.Join(args, " ") + ")"
 		}
 		return x.fail("call %s in an expression", callee(v))
+	case *ast.TypeAssertExpr:
+		// x.(*T): the parameter types fix which concrete type the value has (the caller's dispatch); identity
+		return x.expr(v.X)
 	case *ast.CompositeLit:
 		tn := ""
 		switch t := v.Type.(type) {
@@ -274,6 +283,26 @@ func (x *tr) expr(e ast.Expr) string {
 			tn = t.Name
 		case *ast.SelectorExpr:
 			tn = t.X.(*ast.Ident).Name + "." + t.Sel.Name
+		}
+		if x.t.critResult && (tn == "query.BinaryCriteria" || tn == "query.UnaryCriteria") {
+			got := map[string]string{}
+			for _, el := range v.Elts {
+				kv, ok := el.(*ast.KeyValueExpr)
+				if !ok {
+					return x.fail("positional composite literal")
+				}
+				got[kv.Key.(*ast.Ident).Name] = x.expr(kv.Value)
+			}
+			if tn == "query.BinaryCriteria" {
+				if len(got) != 3 {
+					return x.fail("BinaryCriteria literal with %d fields", len(got))
+				}
+				return "(GCrit.binary " + got["OpType"] + " " + got["C1"] + " " + got["C2"] + ")"
+			}
+			if len(got) != 3 {
+				return x.fail("UnaryCriteria literal with %d fields", len(got))
+			}
+			return "(GCrit.unary { OpType := " + got["OpType"] + ", Field := " + got["Field"] + ", Value := " + got["Value"] + " })"
 		}
 		st, ok := literalTypes[tn]
 		if !ok {
@@ -314,6 +343,12 @@ func (x *tr) result(e ast.Expr) string {
 			return "none"
 		}
 		return "some (" + x.expr(e) + ")"
+	}
+	if x.t.critResult {
+		if id, ok := e.(*ast.Ident); ok && x.types[id.Name] == "GNotU" {
+			return "GCrit.notU " + id.Name
+		}
+		return x.expr(e)
 	}
 	if x.t.mayPanic {
 		return "some (" + x.expr(e) + ")"
@@ -528,6 +563,27 @@ func main() {
 		names = append(names, n)
 	}
 	sort.Strings(names)
+	// a structure after the ones its fields mention
+	ordered := []string{}
+	emitted := map[string]bool{}
+	for len(ordered) < len(names) {
+		for _, n := range names {
+			if emitted[n] {
+				continue
+			}
+			ready := true
+			for _, f := range structs[n] {
+				if _, isStruct := structs[f[1]]; isStruct && !emitted[f[1]] {
+					ready = false
+				}
+			}
+			if ready {
+				ordered = append(ordered, n)
+				emitted[n] = true
+			}
+		}
+	}
+	names = ordered
 	for _, n := range names {
 		sb.WriteString("structure " + n + " where\n")
 		for _, f := range structs[n] {
@@ -536,6 +592,7 @@ func main() {
 		sb.WriteString("\n")
 	}
 	sb.WriteString("/-- the literal of an operand (null for a field reference) and the test `c.Value == nil` -/\ndef _root_.CV.Operand.val : Operand → Value\n  | .lit v => v\n  | .ref _ => .null\ndef _root_.CV.Operand.isNilLit : Operand → Bool\n  | .lit .null => true\n  | _ => false\n\n")
+	sb.WriteString("/-- a criterion as the planner builds it from literals: a leaf, a connective (by the NAME of its constant), or the negated leaf handed in -/\ninductive GCrit\n  | unary (u : GUnary)\n  | binary (op : String) (c1 c2 : GCrit)\n  | notU (c : GNotU)\n\n")
 	sb.WriteString("/-- what a callback returns: nil (go on), the stop sentinel, or the result of a call the translator leaves opaque -/\ninductive Outcome\n  | cont | stop | call (fn : String)\nderiving DecidableEq, Repr\n\n")
 	status := 0
 	for _, t := range targets {
